@@ -56,10 +56,13 @@ func c12Exact(cx *explore.Ctx, q run.Query, r run.Result, body *hclsyntax.Body) 
 				return
 			}
 			desc := ""
-			if as, ok := bc.Eff.Attributes[name]; ok {
+			if (name == "count" && bc.Eff.Ext.Count) || (name == "for_each" && bc.Eff.Ext.ForEach) {
+				// extension attributes: their description is the library's own text; an
+				// enabled extension precedes a declared attribute of the same name in every
+				// feature (hover, tokens, origins, targets, candidates)
+				desc = ""
+			} else if as, ok := bc.Eff.Attributes[name]; ok {
 				desc = as.Description.Value
-			} else if (name == "count" && bc.Eff.Ext.Count) || (name == "for_each" && bc.Eff.Ext.ForEach) {
-				desc = "" // extension attributes: their description is the library's own text
 			} else if bc.Eff.Any != nil {
 				desc = bc.Eff.Any.Description.Value
 			}
@@ -109,7 +112,15 @@ func c12Exact(cx *explore.Ctx, q run.Query, r run.Result, body *hclsyntax.Body) 
 						dep = firstLevelDep(bs, b)
 					}
 					if dep != nil {
-						must = append(must, dep.Detail, dep.Description.Value)
+						// detail and description are chosen separately: the selected body's, else the label's own
+						detail, desc := dep.Detail, dep.Description.Value
+						if detail == "" {
+							detail = ls.Name
+						}
+						if desc == "" {
+							desc = ls.Description.Value
+						}
+						must = append(must, detail, desc)
 					}
 				} else {
 					must = append(must, ls.Description.Value)
